@@ -3,6 +3,7 @@ package harness
 import (
 	"sort"
 	"strconv"
+	"strings"
 	"time"
 )
 
@@ -225,16 +226,41 @@ func genTests(r *Rng, c *GenCfg, n *Node) {
 		}
 		if c.Opts && r.P(0.2) {
 			t.Msg = "M" + strconv.Itoa(i)
+		} else if c.Opts && r.P(0.1) {
+			t.MsgFn = true
+		}
+		if c.Opts && t.T == "custom" && r.P(0.2) {
+			// Params replaces a test's params; on a built-in test that would take the template's own placeholder away
+			t.Params = []KV{{"custom_param", VI(int64(i))}}
+		}
+		if t.T == "custom" && (n.Kind == "string") && r.P(0.3) {
+			t.Reusable = true
 		}
 		n.Tests = append(n.Tests, t)
 	}
+}
+
+func genReqOpt(r *Rng, c *GenCfg, n *Node) {
+	if !c.Opts || !n.Req || !r.P(0.25) {
+		return
+	}
+	o := &TestSpec{T: "required"}
+	switch r.Intn(3) {
+	case 0:
+		o.Msg = "RM"
+	case 1:
+		o.Code = "req_custom"
+	default:
+		o.Msg, o.Code = "RM", "req_custom"
+	}
+	n.ReqOpt = o
 }
 
 func genPTs(r *Rng, c *GenCfg, n *Node) {
 	for r.P(c.PPT) && len(n.PTs) < 3 {
 		p := PTSpec{}
 		if r.P(c.PPTErr) {
-			p.Err = Pick(r, []string{"err", "err", "issue"})
+			p.Err = Pick(r, []string{"err", "err", "issue", "wrapped"})
 		}
 		n.PTs = append(n.PTs, p)
 	}
@@ -322,6 +348,7 @@ func genKind(r *Rng, c *GenCfg, kind string, depth int) *Node {
 			v := genTyped(r, kind)
 			n.Catch = &v
 		}
+		genReqOpt(r, c, n)
 		genTests(r, c, n)
 		genPTs(r, c, n)
 	case "struct":
@@ -337,7 +364,11 @@ func genKind(r *Rng, c *GenCfg, kind string, depth int) *Node {
 			if r.P(c.PTags) {
 				for _, tn := range []string{"json", "form", "query", "env", "zog"} {
 					if r.P(0.35) {
-						f.Tags = append(f.Tags, KV{tn, VS(tn[:1] + "_" + key)})
+						tv := tn[:1] + "_" + key
+						if r.P(0.1) {
+							tv = Pick(r, []string{tn[:1] + "," + key, tn[:1] + " " + key, key + ",omitempty", tn[:1] + "-" + key, "é" + key})
+						}
+						f.Tags = append(f.Tags, KV{tn, VS(tv)})
 					}
 				}
 			}
@@ -349,6 +380,7 @@ func genKind(r *Rng, c *GenCfg, kind string, depth int) *Node {
 		genPTs(r, c, n)
 	case "slice":
 		n.Req = r.P(c.PReq)
+		genReqOpt(r, c, n)
 		n.Elem = GenNode(r, c, depth+1, false)
 		if r.P(c.PDef) && n.Elem.IsPrim() {
 			l := VL()
@@ -361,9 +393,13 @@ func genKind(r *Rng, c *GenCfg, kind string, depth int) *Node {
 		genPTs(r, c, n)
 	case "ptr":
 		n.Req = r.P(c.PReq)
+		genReqOpt(r, c, n)
 		ik := Pick(r, []string{"string", "int", "struct", "slice", "bool"})
 		if c.has("pre") && r.P(0.15) {
 			ik = "pre"
+		}
+		if r.P(0.08) && depth < 6 {
+			ik = "ptr"
 		}
 		if depth >= c.MaxDepth && (ik == "struct" || ik == "slice") {
 			ik = "string"
@@ -378,6 +414,10 @@ func genKind(r *Rng, c *GenCfg, kind string, depth int) *Node {
 	case "pre":
 		n.CT = "any_str"
 		n.Elem = genKind(r, c, "string", depth+1)
+		if depth > 0 && r.P(0.2) {
+			// Preprocess in front of a pointer schema (destination *string); not usable at top level
+			n.Elem = &Node{Kind: "ptr", Req: r.P(0.5), Elem: n.Elem}
+		}
 	}
 	return n
 }
@@ -423,6 +463,24 @@ func GenParseInput(r *Rng, c *GenCfg, n *Node) (v Val, missing bool) {
 				m.M = append(m.M, KV{f.Key, fv})
 			}
 		}
+		if r.P(0.06) && len(n.Fields) > 0 {
+			// keys that differ from a schema key only by case are other keys
+			f := Pick(r, n.Fields)
+			if fv, miss := GenParseInput(r, c, f.N); !miss && f.N.IsPrim() {
+				for _, variant := range []string{strings.ToUpper(f.Key), strings.ToLower(f.Key), strings.Title(strings.ToLower(f.Key))} {
+					dup := variant == f.Key
+					for _, ff := range n.Fields {
+						if ff.Key == variant {
+							dup = true
+						}
+					}
+					if !dup && r.P(0.7) {
+						m.M = append(m.M, KV{variant, fv})
+						fv, _ = GenParseInput(r, c, f.N)
+					}
+				}
+			}
+		}
 		// permute insertion order
 		for i := len(m.M) - 1; i > 0; i-- {
 			j := r.Intn(i + 1)
@@ -439,6 +497,10 @@ func GenParseInput(r *Rng, c *GenCfg, n *Node) (v Val, missing bool) {
 		}
 		l := VL()
 		ne := r.Intn(c.MaxElems + 1)
+		if n.Elem.IsPrim() && r.P(0.03) {
+			// long lists: two- and three-digit positions
+			ne = Pick(r, []int{11, 12, 13, 65, 66, 101, 111})
+		}
 		for i := 0; i < ne; i++ {
 			ev, miss := GenParseInput(r, c, n.Elem)
 			if miss {
@@ -529,6 +591,9 @@ func representation(r *Rng, kind string, tv Val) Val {
 		}
 		return tv
 	case "float":
+		if r.P(0.04) {
+			return VS(Pick(r, []string{"NaN", "Inf", "-Inf", "+Inf"}))
+		}
 		switch r.Intn(4) {
 		case 0:
 			return VS(strconv.FormatFloat(tv.F, 'g', -1, 64))
@@ -605,6 +670,9 @@ func GenValidateInput(r *Rng, c *GenCfg, n *Node, full bool) Val {
 		}
 		l := VL()
 		ne := 1 + r.Intn(c.MaxElems)
+		if n.Elem.IsPrim() && r.P(0.03) {
+			ne = Pick(r, []int{11, 12, 13, 65, 66, 101, 111})
+		}
 		for i := 0; i < ne; i++ {
 			l.L = append(l.L, GenValidateInput(r, c, n.Elem, full))
 		}
@@ -626,8 +694,14 @@ func GenValidateInput(r *Rng, c *GenCfg, n *Node, full bool) Val {
 }
 
 func leafKind(n *Node) string {
+	for n.Kind == "ptr" || n.Kind == "pre" {
+		n = n.Elem
+	}
 	if n.IsPrim() {
 		return n.Kind
+	}
+	if n.Kind == "custom" && n.CT == "int" {
+		return "int"
 	}
 	return "string"
 }
